@@ -112,6 +112,16 @@ pub fn run_c12(cx: &Ctx) -> i32 {
             long_templates.push(form.replace('N', num));
         }
     }
+    // zero-padded references: a run of k zeros before a small group number, for every k up to 45
+    // (a digit scanner that stops after the widest possible number of digits, or parses a prefix)
+    for k in 0..=45usize {
+        for d in ["1", "3", "11", "12"] {
+            let num = format!("{}{}", "0".repeat(k), d);
+            for form in ["\\N", "$N", "${N}", "\\g<N>", "\\Nx"] {
+                long_templates.push(form.replace('N', &num));
+            }
+        }
+    }
     let n_long = long_templates.len();
     lens.push((usize::MAX, total, n_long));
     total += n_long;
@@ -246,7 +256,7 @@ pub fn run_c12(cx: &Ctx) -> i32 {
         t,
         Finish {
             rule: format!(
-                "all {} templates: every template of length <= {} over {:?} plus every Unicode scalar value (all 1 112 064) in the forms $1@ $x@x ${{x@}} \\g<x@> (which characters continue an identifier) plus {} long templates (an ASCII stretch of every length 0..130, a multi-byte character, a reference; references by numbers at the edges of the 8/16/32/64-bit widths in every reference syntax) x 5 capture sets (named, numbered with 11 groups, unmatched groups, digit-led names, multi-byte) x both expanders (default and Python-style) x 5 entry points (expansion, append_expansion, write_expansion - into a Vec, into a writer that takes two bytes per call, and into a full destination, which must be an error -, write_expansion_vec, Captures::expand) which must all agree; oracle: reference expander written from the documentation (frmc-core/src/expandref.rs); expansion(escape(s)) == s for every string of the same space; check accepts only templates all of whose references name an existing group; non-trivial = expansions that differ from the template",
+                "all {} templates: every template of length <= {} over {:?} plus every Unicode scalar value (all 1 112 064) in the forms $1@ $x@x ${{x@}} \\g<x@> (which characters continue an identifier) plus {} long templates (an ASCII stretch of every length 0..130, a multi-byte character, a reference; references by numbers at the edges of the 8/16/32/64-bit widths and by small numbers behind 0..45 zeros in every reference syntax) x 5 capture sets (named, numbered with 11 groups, unmatched groups, digit-led names, multi-byte) x both expanders (default and Python-style) x 5 entry points (expansion, append_expansion, write_expansion - into a Vec, into a writer that takes two bytes per call, and into a full destination, which must be an error -, write_expansion_vec, Captures::expand) which must all agree; oracle: reference expander written from the documentation (frmc-core/src/expandref.rs); expansion(escape(s)) == s for every string of the same space; check accepts only templates all of whose references name an existing group; non-trivial = expansions that differ from the template",
                 total, max_len, ALPHA, n_long
             ),
             exhaustive: true,
